@@ -321,6 +321,8 @@ def run(rep):
         rep.count("obligations:T6")
         sv, dv = f["params"][0]["name"], f["params"][1]["name"]
         prob = []
+        imgs = [dd["name"] for dn, _ in R.find(f["body"], lambda x: x.get("k") == "Decl") for dd in dn["decls"] if "boost::gil::image<" in (dd.get("ctype") or dd.get("type") or "") or "image<" in (dd.get("type") or "")]
+        scratch = imgs[0] if len(imgs) == 1 else "intermediate_img"
         loops = [x for x, _ in R.find(f["body"], lambda x: x.get("k") in ("For", "While", "Do", "ForRange"))]
         impl = [(c, pth) for c, pth in R.calls_in(f["body"], lambda n: n.endswith("::morph_impl"))]
         dst_uses = [(x, pth) for x, pth in R.find(f["body"], lambda x: x.get("k") == "DeclRef" and x.get("name") == dv)]
@@ -337,7 +339,7 @@ def run(rep):
             if not any(a is lp and fld == "body" for a, fld, _ in pth):
                 prob.append("morph_impl is not called in the channel loop")
             a = [R.key(x) for x in c["args"][:2]]
-            if a != ["nth_channel_view(%s,%s)" % (sv, iv), "nth_channel_view(view(intermediate_img),%s)" % iv]:
+            if a != ["nth_channel_view(%s,%s)" % (sv, iv), "nth_channel_view(view(%s),%s)" % (scratch, iv)]:
                 prob.append("morph_impl(%s): expected channel i of the source into channel i of the scratch image" % ", ".join(a))
             # every mention of dst outside assertions/concept checks is the final copy, after the loop
             writes = []
@@ -349,7 +351,7 @@ def run(rep):
                     continue
                 in_loop = any(q is lp for q, fld, _ in p2)
                 writes.append((nm, R.key(outer) if outer else None, in_loop, outer.get("line") if outer else 0))
-            fin = [w for w in writes if w[1] == "copy_pixels(view(intermediate_img),%s)" % dv]
+            fin = [w for w in writes if w[1] == "copy_pixels(view(%s),%s)" % (scratch, dv)]
             if len(writes) != 1 or len(fin) != 1:
                 prob.append("uses of the destination: %s, expected the single copy_pixels(view(scratch), dst)" % [w[1] for w in writes])
             elif fin[0][2]:
